@@ -465,6 +465,8 @@ def run(ck, tier):
     from ..share import import_findings as _imp2
     ck.rule('R9', 'MEI objects: the length byte written for an object is the length of the bytes emitted for it, so that decode() cuts the object where encode() ended it (shared with C20 R1b)')
     _imp2(ck, 'C20', 'R9', ('R1b',), 'decode() then cuts the object short and parses the rest of it as further object headers: the decoded message differs from the encoded one')
+    from .c01 import r14_truth_tested_messages_are_truthy
+    ck.guard(r14_truth_tested_messages_are_truthy, ck, cx, 'R11')
     ck.rule('R10', 'MEI objects: decode() reads the object list as encode() writes it -- (id, length, value) repeated to the end of the PDU, an empty value included (shared with C20 R3)')
     _imp2(ck, 'C20', 'R10', ('R3',), 'an object that encode() emits is dropped or cut by decode(): the decoded message differs from the encoded one', construct_contains=('.decode',))
     return cx.idx
